@@ -136,7 +136,8 @@ def build_overlay(scratch, attachments):
 # engine K
 # --------------------------------------------------------------------------------------------
 
-BASE_FLAGS = ["-Z", "stubbing", "--verbose"]
+BASE_FLAGS = ["-Z", "stubbing"]
+SLOTS = int(os.environ.get("VERIF_SLOTS", "8"))
 CHECK_FLAGS = {
     "default": ["--no-memory-safety-checks", "--no-overflow-checks"],
     "arith": [],
@@ -256,17 +257,48 @@ def classify(parsed, rc, timed_out, text, expect_covers=None, canary=False):
     return "inconclusive", "FAILED without a failed check"
 
 
-def kani_cmd(fqn, tgt, checks, extra):
+def kani_cmd(fqn, tgt, checks, extra, logfile=None):
     return (["cargo", "kani", "--harness", fqn, "--exact", "--target-dir", tgt] + BASE_FLAGS +
-            CHECK_FLAGS[checks] + list(extra))
+            (["--log-file", logfile] if logfile else []) + CHECK_FLAGS[checks] + list(extra))
+
+
+class Slot:
+    """One of SLOTS target directories shared by all check processes; held under flock while a
+    harness compiles and runs in it (cargo kani passes the harness filter to the compiler, so
+    concurrent harness runs must not share a target directory)."""
+
+    def __enter__(self):
+        root = os.path.join(SCRATCH_ROOT, "slots")
+        os.makedirs(root, exist_ok=True)
+        while True:
+            for k in range(SLOTS):
+                f = open(os.path.join(root, "slot%d.lock" % k), "w")
+                try:
+                    fcntl.flock(f, fcntl.LOCK_EX | fcntl.LOCK_NB)
+                    self.f = f
+                    self.dir = os.path.join(root, "tgt%d" % k)
+                    return self
+                except OSError:
+                    f.close()
+            time.sleep(1.0)
+
+    def __exit__(self, *a):
+        fcntl.flock(self.f, fcntl.LOCK_UN)
+        self.f.close()
 
 
 def run_kani_instance(ov, inst, logdir):
     fqn = inst["fqn"]
     logfile = os.path.join(logdir, fqn.replace("::", ".") + ".log")
-    cmd = kani_cmd(fqn, ov["tgt"], inst.get("checks", "default"), inst.get("flags", []))
-    rc, dt, to = run_capped(cmd, ov["lsm"], inst["timeout"], inst["mem_gb"], logfile)
+    vlog = logfile + ".verbose"
+    if os.path.exists(vlog):
+        os.remove(vlog)
+    with Slot() as slot:
+        cmd = kani_cmd(fqn, slot.dir, inst.get("checks", "default"), inst.get("flags", []), vlog)
+        rc, dt, to = run_capped(cmd, ov["lsm"], inst["timeout"], inst["mem_gb"], logfile)
     text = open(logfile, errors="replace").read()
+    if os.path.exists(vlog):
+        text += "\n" + open(vlog, errors="replace").read()
     parsed = parse_kani_log(text)
     verdict, reason = classify(parsed, rc, to, text, inst.get("covers"), inst.get("canary", False))
     res = dict(inst)
@@ -281,13 +313,13 @@ def replay_kani(ov, res, prop, logdir):
     rdir = os.path.join(VERIF, "replays", prop)
     os.makedirs(rdir, exist_ok=True)
     rpath = os.path.join(rdir, fqn.replace("::", ".") + ".txt")
-    cmd = kani_cmd(fqn, ov["tgt"], res.get("checks", "default"), res.get("flags", [])) + [
-        "-Z", "concrete-playback", "--concrete-playback=inplace"]
-    cmd = [c for c in cmd if c != "--verbose"]
     lf = os.path.join(logdir, fqn.replace("::", ".") + ".playback-gen.log")
     hf = os.path.join(ov["lsm"], "src/_verif", res["file"])
     before = open(hf).read()
-    run_capped(cmd, ov["lsm"], res["timeout"] + 120, res["mem_gb"], lf)
+    with Slot() as slot:
+        cmd = kani_cmd(fqn, slot.dir, res.get("checks", "default"), res.get("flags", [])) + [
+            "-Z", "concrete-playback", "--concrete-playback=inplace"]
+        run_capped(cmd, ov["lsm"], res["timeout"] * 2 + 300, max(32, res["mem_gb"] * 3), lf)
     after = open(hf).read()
     m = re.search(r"fn (kani_concrete_playback_\w+)", after[len(before) - 200 if len(before) > 200 else 0:])
     failed = [c for c in res["parsed"]["failed_checks"] if c["status"] == "FAILURE"]
@@ -298,11 +330,12 @@ def replay_kani(ov, res, prop, logdir):
         with open(rpath, "w") as f:
             f.write("\n".join(header + ["# concrete playback test could not be generated; see " + lf]) + "\n")
         return None, rpath
-    test = m.group(1)
+    # all generated tests of this harness (Kani also emits tests for cover witnesses, which pass)
+    test = "kani_concrete_playback_" + res["harness"] + "_"
     gen = after[len(before):]
     lf2 = os.path.join(logdir, fqn.replace("::", ".") + ".playback-run.log")
     if res.get("replay", "native") == "native":
-        cmd2 = ["cargo", "kani", "playback", "-Z", "concrete-playback", "--test", test]
+        cmd2 = ["cargo", "kani", "playback", "-Z", "concrete-playback", "--", test]
         rc, dt, to = run_capped(cmd2, ov["lsm"], 900, 16, lf2)
         out = open(lf2, errors="replace").read()
         ran = re.search(r"test result: (\w+)\. (\d+) passed; (\d+) failed", out)
@@ -433,8 +466,9 @@ def main(argv):
             bl = os.path.join(logdir, "build.log")
             tb = time.time()
             first = kani[0]
-            rc, dt, to = run_capped(kani_cmd(first["fqn"], ov["tgt"], "default", []) + ["--only-codegen"],
-                                    ov["lsm"], 1500, 24, bl)
+            with Slot() as slot:
+                rc, dt, to = run_capped(kani_cmd(first["fqn"], slot.dir, "default", []) + ["--only-codegen"],
+                                        ov["lsm"], 1500, 24, bl)
             build_text = open(bl, errors="replace").read()
             build_ok = rc == 0
             log("[build] %s in %.0fs (rc=%d)" % ("ok" if build_ok else "FAILED", time.time() - tb, rc))
